@@ -134,6 +134,11 @@ def run(ctx):
     with Workdir():
         for si in range(n):
             spec = build_session(r)
+            if si % 5 == 2:
+                # several captures with --incremental-refreshes: from the second one on the client already holds a screen
+                spec = build_session(r, kinds=["capture", "capture", "key", "pause", "rcapture"], ncmd=r.randint(3, 6))
+                spec.incremental = True
+                ctx.count("incremental_capture_sessions")
             flat_words = list(spec.words)
             if r.random() < .35 and len(spec.words) >= 4:
                 # part of the script lives in a script file named in the middle of the command line
